@@ -30,6 +30,8 @@ type Task struct {
 	Bound   int             `json:"bound"`
 	Policy  int             `json:"policy"`
 	W       int             `json:"w"`
+	// TrackStates: count the distinct states of this exploration separately (saturation ladders)
+	TrackStates bool `json:"track_states,omitempty"`
 	Shard   int             `json:"shard"`
 	NShards int             `json:"nshards"`
 	Budget  float64         `json:"budget_s"`
@@ -180,6 +182,9 @@ type Merged struct {
 	ToolErrors  []string
 	MaxPoints   int
 	MaxThreads  int
+	// StatesPerTask: distinct scheduler-visible states per exploration (shards united), for saturation statements
+	StatesPerTask map[string]int
+	perTask       map[string]map[uint64]struct{}
 }
 
 // RunTasks executes tasks in sub-processes of bin, `par` at a time (0 = all cores). Each sub-process is
@@ -279,6 +284,19 @@ func RunTasks(ctx *common.Ctx, bin string, tasks []Task, par int, stopOnFound bo
 					// states of different tasks are different programs: salt with the task index
 					m.States[binary.LittleEndian.Uint64(sb[o:])^uint64(taskSalt(t))] = struct{}{}
 				}
+				if m.perTask == nil {
+					m.perTask = map[string]map[uint64]struct{}{}
+				}
+				if t.TrackStates && len(sb) <= 8*2000000 {
+					set := m.perTask[t.Name]
+					if set == nil {
+						set = map[uint64]struct{}{}
+						m.perTask[t.Name] = set
+					}
+					for o := 0; o+8 <= len(sb); o += 8 {
+						set[binary.LittleEndian.Uint64(sb[o:])] = struct{}{}
+					}
+				}
 			}
 			_ = os.Remove(rf + ".states")
 			_ = os.Remove(rf)
@@ -287,6 +305,11 @@ func RunTasks(ctx *common.Ctx, bin string, tasks []Task, par int, stopOnFound bo
 	}
 	wg.Wait()
 	sort.Slice(m.Results, func(a, b int) bool { return m.Results[a].Task.Name < m.Results[b].Task.Name })
+	m.StatesPerTask = map[string]int{}
+	for n, set := range m.perTask {
+		m.StatesPerTask[n] = len(set)
+	}
+	m.perTask = nil
 	return m
 }
 
